@@ -204,7 +204,42 @@ type hist struct {
 	tainted bool
 }
 
+// progress / reader-panic watchdog: a reader that panics inside the store leaves db.mutex locked,
+// the mutating thread then blocks for ever inside its next call. The watchdog goroutine reports the
+// panic and ends the child instead of waiting for the parent's watchdog.
+var (
+	opSeq       atomic.Int64
+	readerPanic atomic.Pointer[string]
+	curHist     atomic.Pointer[hist]
+)
+
+func panicWatch(c *ctx) {
+	var seenAt time.Time
+	var seq int64
+	for {
+		time.Sleep(200 * time.Millisecond)
+		msg := readerPanic.Load()
+		if msg == nil {
+			continue
+		}
+		if s := opSeq.Load(); s != seq || seenAt.IsZero() {
+			seq, seenAt = s, time.Now()
+			continue
+		}
+		if time.Since(seenAt) > 8*time.Second {
+			w := map[string]interface{}{"note": "the mutating thread blocked inside the store after this panic of a reader thread"}
+			if h := curHist.Load(); h != nil {
+				w["history"], w["history_seed"], w["options"], w["variant"] = h.hi, h.seed, h.opts, c.variant
+			}
+			c.fail("panic/reader", *msg, w)
+			c.write(true)
+			os.Exit(0)
+		}
+	}
+}
+
 func (h *hist) log(format string, a ...interface{}) {
+	opSeq.Add(1)
 	s := fmt.Sprintf(format, a...)
 	h.trace = append(h.trace, s)
 	if !strings.HasPrefix(s, "get ") && !strings.HasPrefix(s, "length ") {
@@ -907,6 +942,8 @@ func (h *hist) startReaders(n int, sessionBlocks []*mblock) *readers {
 			defer func() {
 				if x := recover(); x != nil {
 					rd.panicked.Store(true)
+					msg := fmt.Sprintf("PANIC in reader: %v\n%s", x, vlib.Tail(debug.Stack(), 1200))
+					readerPanic.Store(&msg)
 					rd.mu.Lock()
 					rd.wrong = append(rd.wrong, fmt.Sprintf("PANIC in reader: %v\n%s", x, vlib.Tail(debug.Stack(), 1200)))
 					rd.mu.Unlock()
@@ -1362,6 +1399,7 @@ func (h *hist) finishFlagActivation(b *mblock, stopRd func() bool) {
 func runHistory(c *ctx, root *vlib.Rand, hi int, ops, nread, scale int, profile string) {
 	h := &hist{c: c, hi: hi, byHash: map[[32]byte]*mblock{}, profile: profile, scale: scale, nread: nread}
 	h.seed = root.U64()
+	curHist.Store(h)
 	h.r = vlib.NewRand(h.seed)
 	h.dir = filepath.Join(c.tmp, fmt.Sprintf("h%d", hi))
 	os.MkdirAll(h.dir, 0o755)
@@ -1539,7 +1577,9 @@ func childHist(args []string) {
 	profile := args[5]
 	root := vlib.NewRand(seed)
 	c.write(false)
+	go panicWatch(c)
 	for i := 0; i < n; i++ {
+		readerPanic.Store(nil)
 		runHistory(c, root, i, ops, nread, scale, profile)
 		c.write(false)
 	}
